@@ -1,6 +1,8 @@
 import Aurora.Lemmas.Upload
 import Aurora.Lemmas.SpecTree
 import Aurora.Lemmas.HashTrieBuf
+import Aurora.Lemmas.ChunkPipe
+import Aurora.Lemmas.FeedPipeline
 import Aurora.Generated.Consts
 /-!
 # C02 — Content reference is the Aurora tree hash of the bytes alone
@@ -204,5 +206,80 @@ example : Aurora.HashTrieBuf.Sim (Aurora.HashTrieBuf.plainParams (fun _ _ => Lis
   Aurora.HashTrieBuf.Sim_new _ (by decide) _ (by decide)
 example : Aurora.HashTrieBuf.ShortOK (Aurora.HashTrieBuf.plainParams (fun _ _ => List.replicate 32 0) 8192 32) :=
   Aurora.HashTrieBuf.shortOK_plain _ _ _ (by intro _ _; simp)
+
+/-! ## `file.ChunkPipe` in front of the pipeline (`new pipe` mode: `file.ChunkPipe` + `builder.FeedPipeline`)
+
+`Model/ChunkPipe.lean` transcribes `pkg/file/buffer.go` (buffer of `2 * ChunkSize` bytes, cursor, the
+copy-then-flush loop of `Write`, `Close`).  A *piece* is the argument of one write to the underlying
+`io.Pipe`, i.e. what one `Read` of `FeedPipeline` receives and hands to `pipeline.Write`.  `P` is the
+pipe's chunk size (`boson.ChunkSize`), any `P > 0`.  (Added after seeded change C02-3, a fast path in
+`Write` that let whole chunks of the caller's slice overtake buffered bytes.) -/
+
+/-- **ChunkPipe preserves the bytes**: for every sequence of writes (every segmentation), the
+    concatenation of the pieces the pipe hands on — by the writes, then by `Close` — is the
+    concatenation of the writes, in order. -/
+theorem C02_chunkpipe_preserves_bytes (P : Nat) (hP : 0 < P) (ws : List Bytes) :
+    (Aurora.ChunkPipe.run P ws).flatten = ws.flatten :=
+  (Aurora.ChunkPipe.run_spec P hP ws).1
+
+/-- "only the last read is smaller than the chunk size" (the contract stated in `buffer.go`): every
+    piece but the last has exactly `P` bytes, no piece is empty or longer than `P`. -/
+theorem C02_chunkpipe_piece_sizes (P : Nat) (hP : 0 < P) (ws : List Bytes) :
+    (∀ p ∈ (Aurora.ChunkPipe.run P ws).dropLast, p.length = P) ∧
+    (∀ p ∈ Aurora.ChunkPipe.run P ws, 0 < p.length ∧ p.length ≤ P) :=
+  (Aurora.ChunkPipe.run_spec P hP ws).2
+
+/-- every `ChunkPipe.Write` reports all its bytes as written and never holds back more than one
+    chunk (stated on the invariant that every sequence of writes maintains from the empty pipe) -/
+theorem C02_chunkpipe_write_count (P : Nat) (hP : 0 < P) (c : Aurora.ChunkPipe.State) (out : List Bytes)
+    (data b : Bytes) (h : Aurora.ChunkPipe.Inv P c out data) :
+    (Aurora.ChunkPipe.write P c b).2.2 = b.length ∧ (Aurora.ChunkPipe.write P c b).1.buf.length ≤ P :=
+  ⟨(Aurora.ChunkPipe.write_inv P hP c out data b h).2, (Aurora.ChunkPipe.write_inv P hP c out data b h).1.2.1⟩
+
+/-- **The reference of an upload through the ChunkPipe is the format's tree hash of the bytes
+    written**, whatever the segmentation of the writes into the pipe. -/
+theorem C02_chunkpipe_upload_ref_eq_spec (P C B : Nat) (hP : 0 < P) (hC : 0 < C) (hB : 2 ≤ B) (ws : List Bytes)
+    (hlim : (leafData C ws.flatten).length < B ^ 7) :
+    (upload cref C B (Aurora.ChunkPipe.run P ws)).2 = Spec.root cref C B ws.flatten := by
+  have h := C02_chunkpipe_preserves_bytes P hP ws
+  rw [upload_eq_spec cref C B hC hB (Aurora.ChunkPipe.run P ws) (by rw [h]; exact hlim), h]
+
+/-! Non-vacuity: the invariant holds for the empty pipe; a short write followed by a whole chunk
+    (the order the seeded fast path got wrong), with `P = 2`. -/
+example : Aurora.ChunkPipe.Inv 262144 {} [] [] := Aurora.ChunkPipe.inv_init _
+example : Aurora.ChunkPipe.run 2 [[1], [2, 3], [4, 5, 6, 7, 8]] = [[1, 2], [3, 4], [5, 6], [7, 8]] := by decide
+example : Aurora.ChunkPipe.run 2 [[1, 2, 3, 4]] = [[1, 2], [3, 4]] ∧
+    (Aurora.ChunkPipe.write 2 {} [1, 2, 3, 4]).1.buf = [3, 4] := by decide
+
+/-! ## `builder.FeedPipeline` (reader → pipeline)
+
+`Model/FeedPipeline.lean`: the read loop of `FeedPipeline` as a function from the reader's results
+`(bytes, err == io.EOF)` to the `pipeline.Write` calls.  The reader's behaviour is the environment's
+choice; `Admissible content rs` says the results are consecutive slices of the content with exactly one
+`io.EOF`, at the end — possibly *together with* the last bytes.  (Added after seeded change C02-5, which
+dropped the bytes delivered with `io.EOF`.) -/
+
+/-- **FeedPipeline hands every byte of the reader to the pipeline, in order** — for every reader
+    behaviour: any piece sizes, empty reads, the last bytes with or without `io.EOF`. -/
+theorem C02_feedpipeline_writes_all_bytes (content : Bytes) (rs : List Aurora.FeedPipeline.ReadRes)
+    (h : Aurora.FeedPipeline.Admissible content rs) :
+    (Aurora.FeedPipeline.writes rs).flatten = content :=
+  Aurora.FeedPipeline.writes_all_bytes content rs h
+
+/-- **The reference returned by `FeedPipeline` is the format's tree hash of the reader's content**,
+    whatever the reader's piece sizes and wherever it reports `io.EOF`. -/
+theorem C02_feedpipeline_ref_eq_spec (C B : Nat) (hC : 0 < C) (hB : 2 ≤ B) (content : Bytes)
+    (rs : List Aurora.FeedPipeline.ReadRes) (h : Aurora.FeedPipeline.Admissible content rs)
+    (hlim : (leafData C content).length < B ^ 7) :
+    (upload cref C B (Aurora.FeedPipeline.writes rs)).2 = Spec.root cref C B content := by
+  have hw := C02_feedpipeline_writes_all_bytes content rs h
+  rw [upload_eq_spec cref C B hC hB (Aurora.FeedPipeline.writes rs) (by rw [hw]; exact hlim), hw]
+
+/-! Non-vacuity: a reader that delivers its last bytes with `io.EOF`, and one that does not. -/
+example : Aurora.FeedPipeline.Admissible [1, 2, 3] [([1, 2], false), ([3], true)] :=
+  ⟨by decide, [([1, 2], false)], [3], rfl, by simp⟩
+example : Aurora.FeedPipeline.Admissible [1, 2, 3] [([1, 2], false), ([], false), ([3], false), ([], true)] :=
+  ⟨by decide, [([1, 2], false), ([], false), ([3], false)], [], rfl, by simp⟩
+example : Aurora.FeedPipeline.writes [([1, 2], false), ([3], true)] = [[1, 2], [3]] := by decide
 
 end Aurora.HashTrie
